@@ -139,6 +139,11 @@ class RebuildWorld(fcd.FcdWorld):
             return ip.some(Sym(("popped", d[1]), "char"))
         raise AnalysisError("pop of %r" % (d,))
 
+    def call(self, m, st, callee, args, term):
+        if callee["path"].startswith("core::str::<impl str>::trim") or callee["name"] in ("split_whitespace", "is_whitespace"):
+            raise fcd.ClassRefinement("the rebuilt string is trimmed with %s: Unicode White_Space is not the Zs set of the rule (it also contains TAB, LF, CR, U+0085, U+2028, U+2029, which are not space separators and must be kept)" % callee["path"].rsplit("::", 1)[1])
+        return fcd.FcdWorld.call(self, m, st, callee, args, term)
+
     def buf_is_empty(self, m, st, buf):
         if st.ext.get("v:last") is not None:
             return ip.boolean(False)
